@@ -1,6 +1,7 @@
-"""C11 -- every submitted job resolves exactly once, with its own outcome."""
-from checks import poolcommon
+"""C11 -- replacement of abnormally exited workers is rate limited."""
+from checks import poolcommon, poolreal
 
 
 def main(ctx):
     poolcommon.run(ctx, 'C11')
+    poolreal.run(ctx, 'C11')      # real pool with its supervisor thread: budget enforced / reset by a job
